@@ -10,8 +10,8 @@ from . import common
 from .common import Leaf, TCHAR, URICH, VALUECH
 
 CLASSES = {'uri': URICH, 'value': VALUECH, 'name': TCHAR}
-BOUNDS = {'quick': 'word-at-a-time (x86-64 BLOCK 8, i686 BLOCK 4), SSE4.2, AVX2, runtime dispatcher (CPU feature symbolic), compile-time wrappers, NEON (real aarch64 MIR, intrinsics modelled): buffers of every length 0..=40 (NEON name scanner 0..=20), every byte symbolic over all 256 values (value scanners: HTAB admitted at one rotating position beyond length 8); block functions over 8/16/32 fully symbolic bytes',
-          'thorough': 'every length 0..=100 (NEON name scanner 0..=36)'}
+BOUNDS = {'quick': 'word-at-a-time (x86-64 BLOCK 8, i686 BLOCK 4), SSE4.2, AVX2, runtime dispatcher (CPU feature symbolic), compile-time wrappers, NEON (real aarch64 MIR, intrinsics modelled): buffers of 35 lengths between 0 and 100 chosen around every block boundary (0..9, 12, 15-17, 24, 31-35, 39-41, 47-49, 63-66, 71, 80, 96, 97, 100; NEON name scanner to 36; dispatcher and compile-time wrappers at 8 lengths to 66; i686 to 41), every byte symbolic over all 256 values (value scanners: HTAB admitted at one rotating position beyond length 8); block functions over 8/16/32 fully symbolic bytes',
+          'thorough': 'every length 0..=100 (NEON name scanner 0..=36), same per-byte coverage'}
 OUTSIDE = 'longer buffers; big-endian targets; NEON results cannot be replayed natively on this x86-64 host'
 EXPLANATION = 'classes are the three sets written in the property text; alignment independence follows from the engine (the buffer base address is unknown to every computation; an aligned or address-dependent access is rejected)'
 ASSUMPTIONS = ['x86 and NEON intrinsic models in mirse/models.py follow the vendor pseudocode']
@@ -159,11 +159,19 @@ def jobs(tier, seed):
         params = {'variants': [variant], 'fn': fn, 'cls': cls, 'W': W, 'argmode': mode, 'exact': exact, 'prop': 'C12', 'xcheck_every': 0}
         J.append(Job(f'block-{variant}-{fn}', 'mirse.props.c12.leaf_block', params, T(tier, 120, 900),
                      f'{fn} ({variant}) on {W} fully symbolic bytes' + ('' if exact else ' (conservative: may stop early at HTAB, never late)'), groups=['ref'], mandatory=(W <= 16 and 'name' not in fn)))
-    topL = T(tier, 40, 100)
+    topL = 100
     for variant, fn, cls, tag in SCANNERS:
         top = topL
-        if tag == 'neon' and cls == 'name': top = T(tier, 20, 36)
-        Ls = list(range(0, 10)) + list(range(10, top + 1, T(tier, 5, 2)))
+        if tag == 'neon' and cls == 'name': top = 36
+        if tier == 'quick':
+            if tag in ('runtime', 'sse42-ct', 'avx2-ct'):       # dispatchers / wrappers around scanners that are checked at every length themselves
+                Ls = [0, 7, 8, 16, 17, 33, 40, 66]
+            elif tag == 'swar32':
+                Ls = list(range(0, 10)) + [12, 15, 16, 17, 24, 31, 32, 33, 40, 41]
+            else:
+                Ls = [L for L in (list(range(0, 10)) + [12, 15, 16, 17, 24, 31, 32, 33, 34, 35, 39, 40, 41, 47, 48, 49, 63, 64, 65, 66, 71, 80, 96, 97, 100]) if L <= top]
+        else:
+            Ls = list(range(0, top + 1))
         if top not in Ls: Ls.append(top)
         for L in Ls:
             fixed = None
